@@ -89,6 +89,11 @@ class SimpleBatchSpy:
                 finally:
                     random_state.set_state(clone.get_state())
                 rec["noise"] = [x[1] for x in clone.log if x[0] == "random"]
+            elif isinstance(random_state, (int, np.integer)) and not isinstance(random_state, bool):
+                # an integer seed: rand_argmax builds RandomState(seed) itself; replay the same generator through a spy
+                clone = SpyRS(int(random_state))
+                out = real_ra(a, clone, **kw)
+                rec["noise"] = [x[1] for x in clone.log if x[0] == "random"]
             else:
                 out = real_ra(a, random_state, **kw)
                 rec["noise"] = None
@@ -347,7 +352,7 @@ def eval_case(ctx, prop, spec, case, data, cand, cs, ncols, lines, checks):
 # unchanged tree; TypiClust interleaves a second rand_argmax over clusters and RegressionTreeBasedAL
 # [representativity] selects per cluster and masks afterwards, so the generic loop model does not apply to them)
 SEQ_MASKED = {"FourDs", "DiscriminativeAL", "Clue", "DropQuery", "CoreSet", "ProbCover", "GreedySamplingX",
-              "RegressionTreeBasedAL[random]", "RegressionTreeBasedAL[diversity]"}
+              "RegressionTreeBasedAL[random]", "RegressionTreeBasedAL[diversity]", "TypiClust", "BatchBALD"}
 
 
 def seq_correspondence(ctx, spec, case, r, q, cs, ncols, lines, checks):
@@ -358,6 +363,14 @@ def seq_correspondence(ctx, spec, case, r, q, cs, ncols, lines, checks):
     if not calls or not q:
         return
     n_cand = len(cs)
+    if spec.cls == "TypiClust":
+        # TypiClust interleaves a rand_argmax over the cluster sizes (length n_labeled + batch_size, no NaN) with the
+        # sample picks (candidate space); keep the sample picks only, and skip the ambiguous equal-length situation
+        n_clusters = int(np.sum(~np.isnan(case["y"]))) + min(case["b"], n_cand)
+        if n_clusters == n_cand:
+            ctx.count("seq_typiclust_ambiguous_skipped")
+            return
+        calls = [c for c in calls if len(c["a"]) == n_cand]
     cand_space = None
     matched, qi = [], 0
     for c in calls:
